@@ -13,9 +13,12 @@ set_option linter.unusedSimpArgs false
 set_option linter.unusedVariables false
 
 theorem l3_full_gt : L3Full .gt := by l3_full
-theorem l3_pre_gt : L3Pre .gt := by l3_pre
+theorem l3_pre_lt_gt : L3PreO .gt .lt := by l3_pre
+theorem l3_pre_eq_gt : L3PreO .gt .eq := by l3_pre
+theorem l3_pre_gt_gt : L3PreO .gt .gt := by l3_pre
 theorem l3_part_gt : L3Part .gt := by l3_part
 
-theorem l3_npm_gt : L3Npm .gt := l3_assemble _ l3_full_gt l3_pre_gt l3_part_gt
+theorem l3_npm_gt : L3Npm .gt :=
+  l3_assemble _ l3_full_gt (l3_pre_assemble _ l3_pre_lt_gt l3_pre_eq_gt l3_pre_gt_gt) l3_part_gt
 
 end DepsDev.Proofs.C03
